@@ -14,6 +14,25 @@ pub mod host {
     pub mod rusqlite {
         pub use venv::sqlite::{Error, Result};
     }
+    use std::time::Duration;
+    use venv::chan::Sender;
+    use venv::eyre;
+    use venv::time::Instant;
+    use venv::{error};
+
+    #[derive(Debug, Default, Clone, Copy, Eq, PartialEq, Ord, PartialOrd, Hash)]
+    pub struct ActorId(pub u8);
+    #[derive(Debug, Default, Clone, Copy, Eq, PartialEq, Ord, PartialOrd, Hash)]
+    pub struct Timestamp(pub u64);
+    /// mirrors of the two wrapper enums `send_change_chunks` constructs (only the variant it uses)
+    #[derive(Debug, Clone, PartialEq)]
+    pub enum SyncMessage {
+        V1(SyncMessageV1),
+    }
+    #[derive(Debug, Clone, PartialEq)]
+    pub enum SyncMessageV1 {
+        Changeset(ChangeV1),
+    }
 
     /// ABSTRACTION: the chunker reads only `seq` and `estimated_byte_size()` of a change.
     #[derive(Clone, Copy, Debug, PartialEq, Eq)]
@@ -30,6 +49,7 @@ pub mod host {
 
     include!("sliced/base.rs");
     include!("sliced/change.rs");
+    include!("sliced/broadcast.rs");
     include!("sliced/peer.rs");
 
     // harnesses live in a child module so that they can reach private sliced items
